@@ -17,6 +17,7 @@ import time
 from concurrent.futures import ThreadPoolExecutor
 
 VERIF = os.path.dirname(os.path.dirname(os.path.abspath(__file__)))
+OUT = os.environ.get("VERIF_OUT") or VERIF  # evidence/ and replays/ go here (sweeps against scratch trees use a temp dir)
 PY = sys.executable
 HARNESS = {
     "C%02d" % i: "harness.c%02d" % i for i in range(1, 19)
@@ -113,7 +114,7 @@ def main():
     open_f = [f for f in findings.get("open", []) if f["property"] == prop]
     open_ids = [f["id"] for f in open_f]
     import glob
-    for old in glob.glob(os.path.join(VERIF, "replays", "%s_*.json" % prop)):
+    for old in glob.glob(os.path.join(OUT, "replays", "%s_*.json" % prop)):
         os.remove(old)
     work = tempfile.mkdtemp(prefix="symprov_%s_" % prop)
     t0 = time.time()
@@ -228,7 +229,7 @@ def aggregate(prop, mod, args, seed, results, open_f, findings, t0):
     # ---- known findings: replay each listed witness with the region NOT excluded --------------------------
     known_lines = []
     for f in open_f:
-        wpath = os.path.join(VERIF, "replays", "known_%s.json" % f["id"])
+        wpath = os.path.join(OUT, "replays", "known_%s.json" % f["id"])
         with open(wpath, "w") as fh:
             json.dump(dict(f["witness"], property=prop), fh)
         rc, out, err = replay_file(wpath)
@@ -276,12 +277,12 @@ def aggregate(prop, mod, args, seed, results, open_f, findings, t0):
     if os.environ.get("VERIF_SHOW_CLASSES"):
         for kk, (n, pp, ww) in sorted(classes.items(), key=lambda kv: -kv[1][0]):
             print("CLASS x%d %s\n      params=%s witness=%s" % (n, kk, json.dumps(pp), json.dumps(ww)[:300]))
-    os.makedirs(os.path.join(VERIF, "replays"), exist_ok=True)
+    os.makedirs(os.path.join(OUT, "replays"), exist_ok=True)
     for line in known_lines:
         print(line)
     rc = 0
     for k, (wfile, msg, src) in enumerate(new_viol[:10]):
-        path = os.path.join(VERIF, "replays", "%s_%s_%d.json" % (prop, wfile["obligation"], k))
+        path = os.path.join(OUT, "replays", "%s_%s_%d.json" % (prop, wfile["obligation"], k))
         wfile["msg"] = msg
         with open(path, "w") as fh:
             json.dump(wfile, fh, indent=1)
@@ -334,8 +335,8 @@ def aggregate(prop, mod, args, seed, results, open_f, findings, t0):
         "wall_s": wall,
         "violations": len(new_viol),
     }
-    os.makedirs(os.path.join(VERIF, "evidence"), exist_ok=True)
-    with open(os.path.join(VERIF, "evidence", "%s.json" % prop), "w") as fh:
+    os.makedirs(os.path.join(OUT, "evidence"), exist_ok=True)
+    with open(os.path.join(OUT, "evidence", "%s.json" % prop), "w") as fh:
         json.dump(ev, fh, indent=1, default=repr)
     print("%s tier=%s wall=%.1fs exit=%d" % (prop, args.tier, wall, rc))
     return rc
